@@ -660,7 +660,9 @@ pub fn check(rec: &RunRecord) -> Vec<Violation> {
                     }
                 }
                 FrameKind::Unlinked(body) => {
-                    if !linked {
+                    // (A request for a lane that has failed may be answered like one for a lane that does not exist.)
+                    let not_found_after_failure = matches!(body, Some(b) if b.as_slice() == b"@laneNotFound") && lane_failed.map(|fs| f.step >= fs).unwrap_or(false);
+                    if !linked && !not_found_after_failure {
                         out.push(Violation::new("C04", "C04.unlinked_outside_link", "", format!("peer {peer} lane {lane}: unlinked {:?} at step {} outside a link", body.as_ref().map(|b| body_text(b)), f.step)));
                     }
                     // (after a lane has failed it no longer exists: lane-not-found is then the right answer)
@@ -1366,6 +1368,16 @@ pub fn check(rec: &RunRecord) -> Vec<Violation> {
         }
     }
     let _ = Ctl::Nop;
+    // A lane that closed only its request channel (W-FAKEAGENT, `CloseInput`): grammar violations on that lane form
+    // their own class.
+    if let Some(plan) = rec.scenario.fake.as_ref().filter(|f| matches!(f.mode, super::fake::FailMode::CloseInput)) {
+        let needle = format!(" lane {}: ", plan.lane);
+        for v in out.iter_mut() {
+            if v.property == "C04" && v.detail.contains(&needle) && matches!(v.rule.as_str(), "C04.unlinked_outside_link" | "C04.synced_outside_link" | "C04.event_outside_link" | "C04.linked_inside_link") {
+                v.sig = format!("C04.lane_input_closed:{}", v.sig);
+            }
+        }
+    }
     dedup(out)
 }
 
